@@ -11,6 +11,19 @@ unintercepted draw is a harness error.
 
 S2: Bezier curves / patches over a lattice alphabet of control points against an exact rational
 Bernstein oracle; exports for all resolutions in {2..5} (x {2..5}).
+
+Deviations crossed with the families (each is a dimension of the enumeration, never a special case):
+* unit of length: every sampler and the Bezier evaluations are re-run with all coordinates / radii multiplied by
+  2^-40 and by 2^40 (exact); the answers divided by the same power of two must satisfy the same exact expectations
+  (input class suffix ':unit_of_length=2^k').
+* call histories on ONE curve / patch object: first call (evaluate at each parameter | export), then one control
+  point moved through the public attribute `pts` (replaced, or overwritten in place), then evaluate at the same
+  parameter(s) / at other ones / export: every answer is the Bernstein form of the control points held at the time
+  of the call (C19.bezier.{curve,patch}.history).
+* ownership: a vector (or exported mesh) handed back belongs to the caller - overwriting it in place must not move
+  the curve / patch nor the caller's control point arrays (C19.bezier.{curve,patch}.ownership); construction,
+  evaluation and export leave the caller's arrays as they were (C19.bezier.{curve,patch}.inputs_unchanged); the
+  control points are handed over as tuples, as one ndarray, as Vec objects.
 """
 from __future__ import annotations
 import itertools, math, os
@@ -27,7 +40,9 @@ RULE = ("samplers: one case = (sampler, parameters, return mode, n_pts, script o
         "uniform: {0,2^-53,1/4,1/2,3/4,1-2^-53}, choice: every index); an execution with n_pts>1 gets n_pts consecutive "
         "combinations (all cyclic offsets when 'sliding', else a tiling), so rows always differ; Bezier: one case = "
         "(control polygon / net over the lattice alphabet, parameter or export resolution); non-trivial = at least two "
-        "distinct control points / at least one sample point")
+        "distinct control points / at least one sample point; unit-of-length cases = the same with every length x 2^-40 / "
+        "2^40; history cases = (polygon / net, first call, index of the moved control point, replace | in place, order of "
+        "the calls made after the edit); ownership cases = (polygon / net, argument form, call whose result is overwritten)")
 ASSUMPTIONS = [
     "randomness reaches mouette/sampling.py only through the module-level names np.random.*, random, choice (all "
     "rebound by the harness; numpy global RNG state and Python random state are verified unchanged by every execution)",
@@ -39,6 +54,13 @@ ASSUMPTIONS = [
     "zero-area or non-triangular faces, radius <= 0",
     "patch convention (which parameter runs along which index of the net) is not fixed by the statement: either is "
     "accepted, but one net must follow a single convention in evaluate and as_surface",
+    "unit of length: only the exact powers of two 2^-40 and 2^40 (no rounding differs between the scaled and the unscaled "
+    "run; squares stay far from under/overflow); these tasks use reduced draw scripts (tiled, fewer n_pts) and are not "
+    "crossed with the attribute-blackboard / duplicate-flag variants",
+    "histories: depth = one edit of one control point (moved by the lattice vector (3,-5,7)) between a first call and up to "
+    "two later calls, always on a fresh object; `pts` (container of Vec for a curve, list of lists of Vec for a patch) is "
+    "taken as the public control-point attribute, read live by every call - which the unchanged code does",
+    "ownership is only asserted for results the caller CAN overwrite (a read-only result is counted, not reported)",
 ]
 BOUNDS = {
     "quick": "sphere/ball: centres {0,(1,-2,3)} x radii {0.1,1,3} x n_pts {1,2,8,9,10,27} x 26 lattice directions "
@@ -46,10 +68,18 @@ BOUNDS = {
              "U6^dim sliding for dim<=2, tiled for dim 3-4 (dim 4: unit cube + 16 boxes over the 2 non-unit intervals); polylines = 8 graphs on <=3 vertices x all placements on 4 "
              "lattice points, surfaces = 24 labelled complexes on <=4 vertices x 2 point sets, n_pts {1,2,9}; Bezier "
              "curves degree 1-3 over 4 (3-D) / 3 (2-D) lattice points, nets 2x2 (3 pts), 2x3/3x2 (2 pts), 3x3 (2 pts, <=3 control points off the base point) "
-             "+ 4 generic nets per shape, 25 parameter pairs, resolutions {2..5}^2",
+             "+ 4 generic nets per shape, 25 parameter pairs, resolutions {2..5}^2; unit of length 2^-40 and 2^40: all sphere/"
+             "ball configs (n_pts {1,2,9} / {1,9}, tiled), all boxes (grid: all n_pts; uniform: n_pts {1,2,9} dim<=2, {2} dim>=3, "
+             "tiled), all polylines (n_pts {1,2}, tiled), surfaces on the moment points + all 3-vertex ones (n_pts 2), all "
+             "curves (5 parameters, as_polyline 2,3 + one custom), every 3rd net (25 parameter pairs, as_surface 2x3, 3x2); "
+             "histories: curves of degree <=1 and every 4th other polygon x {evaluate at 5 parameters, as_polyline(3)} x moved "
+             "index x {replace, in place} x 3 call orders; every 8th net + the generic ones x {evaluate at {0,1/3,1}^2, "
+             "as_surface(2,3)} x moved index x 2 x 4 call orders; ownership: every polygon (5 parameters + as_polyline 2,3) "
+             "and the history nets (8 parameter pairs + as_surface 2x2, 3x2), argument forms tuples / ndarray / Vec by turns",
     "thorough": "as quick with 124 lattice directions, 4 intervals per axis (340 boxes, sliding up to dim 3), polylines on 5 "
                 "lattice points plus all 63 graphs on 4 vertices, surfaces x 3 point sets with n_pts {1,2,8,9,10,27} "
-                "sliding, curves over 5 / 4 lattice points, nets 2x2 (4 pts), 2x3/3x2 (3 pts), 3x3 (2 pts)",
+                "sliding, curves over 5 / 4 lattice points, nets 2x2 (4 pts), 2x3/3x2 (3 pts), 3x3 (2 pts); unit of length: all "
+                "surfaces and all nets; histories: every polygon, every 2nd net + the generic ones",
 }
 
 N_PTS = [1, 2, 8, 9, 10, 27]
@@ -148,36 +178,38 @@ def tasks(tier):
     # ---- call histories on one curve / patch object (edit of a control point between two calls) and ownership of
     # the returned vectors / of the caller's control point arrays
     # (ownership: every polygon; edit histories: polygons of degree <= 1 and every 4th other one in quick, all in thorough;
-    #  nets: every 6th (thorough: every 2nd) net of the patch family and every net with pairwise distinct control points)
+    #  nets: every 8th (thorough: every 2nd) net of the patch family and every net with pairwise distinct control points)
     for t in [t for t in out if t["kind"] == "curve"]:
         for ch in _chunks(t["polygons"], 40):
             out.append({"kind": "curve_hist", "polygons": ch, "hist_every": 4 if q else 1})
     hist_nets = []
     for t in [t for t in out if t["kind"] == "patch"]:
-        hist_nets += [net for k, net in enumerate(t["nets"]) if k % (6 if q else 2) == 0 or _is_generic(net)]
+        hist_nets += [net for k, net in enumerate(t["nets"]) if k % (8 if q else 2) == 0 or _is_generic(net)]
     for ch in _chunks(hist_nets, 3):
         out.append({"kind": "patch_hist", "nets": ch})
     # ---- unit-of-length deviation of every sampler and of the Bezier evaluations
+    # (one task = the reduced enumeration at unit 1 - reference, nothing reported - then at every other unit: a clause
+    #  that already fails at unit 1 is reported by the regular tasks only, so one defect keeps one fingerprint)
     base = list(out)
-    for ex in SCALE_EXPS:
+    for ex in [list(SCALE_EXPS)]:
         for t in base:
             k = t["kind"]
             if k == "sphere":
-                out.append(dict(t, n_pts=[1, 2, 9], sliding=False, scale_exp=ex))
+                out.append(dict(t, n_pts=[1, 2, 9], sliding=False, scale_exps=ex))
             elif k == "ball" and t["n_pts"] == [N_PTS[0]]:
-                out.append(dict(t, n_pts=[1, 9], sliding=False, scale_exp=ex))
+                out.append(dict(t, n_pts=[1, 9], sliding=False, scale_exps=ex))
             elif k == "aabb_grid":
-                out.append(dict(t, scale_exp=ex))
+                out.append(dict(t, scale_exps=ex))
             elif k == "aabb_uniform":
-                out.append(dict(t, n_pts=[1, 2, 9] if t["dim"] <= 2 else [2], sliding=False, scale_exp=ex))
+                out.append(dict(t, n_pts=[1, 2, 9] if t["dim"] <= 2 else [2], sliding=False, scale_exps=ex))
             elif k == "polyline":
-                out.append(dict(t, n_pts=[1, 2], sliding=False, scale_exp=ex))
+                out.append(dict(t, n_pts=[1, 2], sliding=False, scale_exps=ex))
             elif k == "surface" and (not q or t["pointset"] == "moment" or t["nv"] == 3):
-                out.append(dict(t, n_pts=[2], sliding=False, scale_exp=ex))
+                out.append(dict(t, n_pts=[2], sliding=False, scale_exps=ex))
             elif k == "curve":
-                out.append(dict(t, lite=True, scale_exp=ex))
+                out.append(dict(t, lite=True, scale_exps=ex))
             elif k == "patch":
-                out.append(dict(t, nets=t["nets"][::(3 if q else 1)] , lite=True, scale_exp=ex))
+                out.append(dict(t, nets=t["nets"][::(3 if q else 1)] , lite=True, scale_exps=ex))
     return out
 
 
@@ -206,6 +238,8 @@ class Ctx:
         self.ex = 0                       # unit of length of this task = 2^ex
         self.s = 1.0
         self.suffix = ""
+        self.reference = False            # unit-of-length tasks: the run at unit 1, whose violations are only remembered
+        self.ref_fps = set()
 
     def set_unit(self, task, kind):
         self.ex = int(task.get("scale_exp", 0) or 0)
@@ -217,6 +251,12 @@ class Ctx:
 
     def violation(self, sub, callee, kind, icls, detail):
         if kind == "raises:SeamError":   # the seam refused a draw: harness error (counted in _exec), not a verdict
+            return
+        if self.reference:
+            self.ref_fps.add((sub, callee, kind, icls))
+            return
+        if self.ex and (sub, callee, kind, icls) in self.ref_fps:
+            self.rep.count("unit:violations_seen_at_unit_1_too")
             return
         icls = icls + self.suffix
         if self.ex and isinstance(detail, dict):
@@ -1511,32 +1551,43 @@ def run_task(task, rep: Report):
     from mouette import sampling
     np.random.seed(SEED % (2 ** 32))        # any unintercepted draw would at least be reproducible (and is reported)
     ctx = Ctx(rep)
-    kind = task["kind"]
     with L.Installed(sampling, ctx.seam):
-        if kind == "selftest":
-            _run_selftest(task, ctx)
-        elif kind == "sphere":
-            _run_round(task, ctx, ball=False)
-        elif kind == "ball":
-            _run_round(task, ctx, ball=True)
-        elif kind == "aabb_grid":
-            _run_aabb_grid(task, ctx)
-        elif kind == "aabb_uniform":
-            _run_aabb_uniform(task, ctx)
-        elif kind == "polyline":
-            _run_polyline(task, ctx)
-        elif kind == "surface":
-            _run_surface(task, ctx)
-        elif kind == "curve":
-            _run_curves(task, ctx)
-        elif kind == "patch":
-            _run_patches(task, ctx)
-        elif kind == "curve_hist":
-            _run_curve_hist(task, ctx)
-        elif kind == "patch_hist":
-            _run_patch_hist(task, ctx)
+        if task.get("scale_exps"):
+            ctx.reference = True
+            _dispatch(dict(task, scale_exp=0), ctx)       # reference: same reduced enumeration at unit 1, only remembered
+            ctx.reference = False
+            for ex in task["scale_exps"]:
+                _dispatch(dict(task, scale_exp=ex), ctx)
         else:
-            raise ValueError(kind)
+            _dispatch(task, ctx)
+
+
+def _dispatch(task, ctx):
+    kind = task["kind"]
+    if kind == "selftest":
+        _run_selftest(task, ctx)
+    elif kind == "sphere":
+        _run_round(task, ctx, ball=False)
+    elif kind == "ball":
+        _run_round(task, ctx, ball=True)
+    elif kind == "aabb_grid":
+        _run_aabb_grid(task, ctx)
+    elif kind == "aabb_uniform":
+        _run_aabb_uniform(task, ctx)
+    elif kind == "polyline":
+        _run_polyline(task, ctx)
+    elif kind == "surface":
+        _run_surface(task, ctx)
+    elif kind == "curve":
+        _run_curves(task, ctx)
+    elif kind == "patch":
+        _run_patches(task, ctx)
+    elif kind == "curve_hist":
+        _run_curve_hist(task, ctx)
+    elif kind == "patch_hist":
+        _run_patch_hist(task, ctx)
+    else:
+        raise ValueError(kind)
 
 
 def finish(tier, rep: Report):
@@ -1588,16 +1639,16 @@ def finish(tier, rep: Report):
 def stale_variant(task, tier):
     """Tasks that are also run on meshes with a stale attribute blackboard (mc/families.py STALE; the runner appends
     ':stale_attribute_blackboard' to the input class of anything found there)."""
-    return bool(task.get("kind") in ("polyline", "surface") and not task.get("scale_exp"))
+    return bool(task.get("kind") in ("polyline", "surface") and not task.get("scale_exps"))
 
 
 def dupflag_variant(task, tier):
     """Tasks that are also run with config.display_duplicate_attribute_warning = True (the runner appends
     ':duplicate_attribute_flag' to the input class of anything found there)."""
-    return bool(task.get("kind") in ("polyline", "surface") and not task.get("scale_exp"))
+    return bool(task.get("kind") in ("polyline", "surface") and not task.get("scale_exps"))
 
 
 def warm_variant(task, tier):
     """Tasks that are also run on meshes whose attribute blackboard is already filled with (valid) persistent attributes
     (mc/families.py WARM; the runner appends ':warm_attribute_blackboard' to the input class of anything found there)."""
-    return bool(task.get("kind") in ("polyline", "surface") and not task.get("scale_exp"))
+    return bool(task.get("kind") in ("polyline", "surface") and not task.get("scale_exps"))
